@@ -61,7 +61,8 @@ func (l *limitReadCloser) Read(p []byte) (n int, err error) {
 		if l.N == -1 {
 			n--
 		}
-		if err == nil {
+		if err == nil || err == io.EOF {
+			// The source had more than the allowed number of bytes, even if it also ended with this read
 			err = ErrStreamTooLarge
 		}
 		if !l.closed {
